@@ -518,6 +518,34 @@ def report_absorbed(ctx, R7, repo, fo):
     ok = len(calls) == 1 and len(calls[0].args) >= 4 and unparse(calls[0].args[0]) == "self.status" and tag_source(calls[0].args[2]) == {"150"} and tag_source(calls[0].args[3]) == {"39"}
     ctx.instance(R7, "process_execution_report[transition on (status, ExecType 150, OrdStatus 39)]", ok,
                  "change_status is not driven by the current status, the report's ExecType(150) and OrdStatus(39)", loc(fn))
+    # optional tags of the report (read with `report.get(tag, None)`) are converted only where they are present: a conversion of the local
+    # stands under `<local> is not None`; a REPLACED report without Price / OrderQty is legal and must not fail with a TypeError
+    from sa.guards import facts as _facts
+    opt = {}
+    for n in g.nodes:
+        if n.kind == "stmt" and isinstance(n.ast, ast.Assign) and len(n.ast.targets) == 1 and isinstance(n.ast.targets[0], ast.Name):
+            v = n.ast.value
+            if isinstance(v, ast.Call) and isinstance(v.func, ast.Attribute) and v.func.attr == "get" and unparse(v.func.value) == param and len(v.args) == 2 \
+                    and isinstance(v.args[1], ast.Constant) and v.args[1].value is None:
+                opt[n.ast.targets[0].id] = fo.tag(v.args[0])
+    for n in g.nodes:
+        if n.kind not in ("stmt", "test") or n.ast is None:
+            continue
+        for x in walk_no_nested(n.ast):
+            if isinstance(x, ast.Call) and isinstance(x.func, ast.Name) and x.func.id in ("float", "int") and len(x.args) == 1 and isinstance(x.args[0], ast.Name) \
+                    and x.args[0].id in opt:
+                nm = x.args[0].id
+                # only where the optional read is the definition that reaches the conversion
+                if not any(isinstance(g.nodes[d].ast, ast.Assign) and isinstance(g.nodes[d].ast.value, ast.Call) and unparse(g.nodes[d].ast.value.func).endswith(".get")
+                           for d in rdm[n.id].get(nm, set())):
+                    continue
+                fs = set()
+                for t, lab in g.guards(n.id, exc=False):
+                    fs |= _facts(t, lab == "true")
+                okg = (f"{nm} is not None", True) in fs or (f"{nm} is None", False) in fs or (nm, True) in fs
+                ctx.instance(R7, f"process_execution_report[optional tag {opt[nm]} converted only when present]", okg,
+                             f"`{short(x)}` converts the optional tag {opt[nm]} (read with a None default) without `{nm} is not None` being established: a report "
+                             "that legally omits it makes the handler fail with a TypeError after part of the report was absorbed", loc(x))
     rj = repo.func(f"{CLS}.process_cancel_rej_report")
     calls = [c for c in walk_no_nested(rj) if isinstance(c, ast.Call) and unparse(c.func).endswith("change_status")]
     p2 = rj.args.args[1].arg
